@@ -18,7 +18,7 @@ import nlgen, c19gen
 
 CHAIN_RE = re.compile(r'(_(\d+|slk|equ)_)*\Z')
 TOKSTART_RE = re.compile(r'_[^_]+_')
-N_THEOREMS = 43
+N_THEOREMS = 45
 
 
 def hx(s):
@@ -262,6 +262,173 @@ class Graph:
                 i += 1
         return calls, unknown
 
+    def units(self):
+        """the registered entries (execution order) as units (kind, source cell, [target cells]) / slack / many2one"""
+        U = []
+        for kind, src, dst in self.links:
+            if kind == 'CopyLink':
+                (sn, sb, se), (dn, db, de) = src[0], dst[0]
+                for k in range(se - sb):
+                    U.append(('copy', self.cell(sn, sb + k), [self.cell(dn, db + k)]))
+            elif kind == 'One2ManyLink':
+                (sn, sb, se), (dn, db, de) = src[0], dst[0]
+                for sj in range(sb, se):
+                    U.append(('o2m', self.cell(sn, sj), [self.cell(dn, j) for j in range(db, de)]))
+            elif kind == 'Many2OneLink':
+                (sn, sb, se), (dn, db, de) = src[0], dst[0]
+                for sj in range(sb, se):
+                    U.append(('m2o', self.cell(sn, sj), [self.cell(dn, db)]))
+            elif kind.startswith('Range2Slk'):
+                (sn, sb, se) = src[0]
+                (cn, cb, ce), (vn, vb, ve) = dst[0], dst[1]
+                U.append(('slack', self.cell(sn, sb), [self.cell(cn, cb), self.cell(vn, vb)]))
+            else:
+                U.append(('unknown', -1, []))
+        return U
+
+    def api_calls_from_events(self, root_cells, events):
+        """constructor-API calls from the REAL auto-link scope events (RECSOLVER_SCOPES: every SetAutoLinkSource and
+        TurnOffAutoLinking with the collected targets and the node sizes at opening) merged, in registration order, with the
+        entries that are registered outside of scopes (explicit CopyLink / Many2OneLink / Range2Slk AddEntry calls, taken
+        from the link dump).  create vs reuse of a scope target is decided by the real node size at scope opening.
+        returns (calls, problems)"""
+        problems = []
+        scopes = []        # (src cell, sizes, [target cells in order] | None while open)
+        cur = None
+        for ev in events:
+            if ev['ev'] == 'open':
+                if ev.get('already_open'):
+                    problems.append('nested-scope')
+                cur = {'src': self.cell(ev['src'][0], ev['src'][1]), 'sizes': ev['sizes'], 'targets': None}
+                scopes.append(cur)
+            elif ev['ev'] == 'off':
+                if ev['src'] is not None and cur is not None and cur['targets'] is None:
+                    tg = []
+                    for node, b, e in ev['targets']:
+                        for j in range(b, e + 1):
+                            tg.append((node, j))
+                    cur['targets'] = tg
+        seen = set(root_cells)
+        calls = ['broot %d' % c for c in root_cells]
+        U = self.units()
+        j = 0
+
+        def explicit(u):
+            kind, s0, ds = u
+            if kind == 'copy':
+                d0 = ds[0]
+                c = 'breuse %d' % d0 if d0 in seen else 'bcreate %d' % d0
+                seen.add(d0)
+                return ['bopen %d' % s0, c, 'bclose']
+            return None
+        empty_scopes = [sc['src'] for sc in scopes if not sc['targets']]
+        slack_srcs = set(u[1] for u in U if u[0] == 'slack')
+
+        def flush_explicit(upto_match):
+            nonlocal j
+            while j < len(U):
+                if upto_match is not None and U[j:j + len(upto_match)] == upto_match:
+                    return True
+                u = U[j]
+                if u[0] == 'copy':
+                    calls.extend(explicit(u))
+                    j += 1
+                elif u[0] == 'm2o':
+                    t = u[2][0]
+                    srcs = []
+                    while j < len(U) and U[j][0] == 'm2o' and U[j][2][0] == t:
+                        srcs.append(U[j][1]); j += 1
+                    seen.add(t)
+                    calls.append('bm2o %d %s' % (t, ' '.join(map(str, srcs))))
+                elif u[0] == 'slack':
+                    if u[1] in empty_scopes:
+                        empty_scopes.remove(u[1])
+                    else:
+                        problems.append('slack-entry-without-scope')
+                    seen.update(u[2])
+                    calls.extend(['bopen %d' % u[1], 'bslack %d %d' % (u[2][0], u[2][1])])
+                    j += 1
+                else:
+                    problems.append('entry-not-explained-by-scope-events:%s' % u[0])
+                    j += 1
+            return upto_match is None
+        def flush_one():
+            nonlocal j
+            if j >= len(U):
+                return False
+            j0 = j
+            u = U[j]
+            if u[0] == 'o2m':
+                problems.append('one2many-entry-not-explained-by-scope-events')
+                j += 1
+                return True
+            save = list(U)
+            # emit just this explicit group
+            U_tail = U[j + 1:]
+            if u[0] == 'm2o':
+                flush_m2o()
+            else:
+                del U[j + 1:]
+                flush_explicit(None)
+                U.extend(U_tail)
+            return j > j0
+
+        def flush_m2o():
+            nonlocal j
+            t = U[j][2][0]
+            srcs = []
+            while j < len(U) and U[j][0] == 'm2o' and U[j][2][0] == t:
+                srcs.append(U[j][1]); j += 1
+            seen.add(t)
+            calls.append('bm2o %d %s' % (t, ' '.join(map(str, srcs))))
+        for sc in scopes:
+            if not sc['targets']:
+                continue
+            cells = [self.cell(n, i) for n, i in sc['targets']]
+            # what ~AutoLinkScope registers (mirrors Model.closeOps): one CopyLink unit for a single target, else One2Many
+            if len(cells) == 1:
+                expected = [('copy', sc['src'], cells)]
+            else:
+                # one One2Many unit per collected target *range*; ranges are what FlatConverter::AutoLink merged
+                expected = None
+            created = set()
+            body = []
+            for (n, i), c in zip(sc['targets'], cells):
+                if i >= sc['sizes'].get(n, 0) and c not in created:
+                    body.append('bcreate %d' % c); created.add(c)
+                else:
+                    body.append('breuse %d' % c)
+            if expected is None:
+                # match greedily: consecutive o2m units with this source whose concatenated targets equal `cells`
+                def try_match(k):
+                    got = []
+                    while k < len(U) and U[k][0] == 'o2m' and U[k][1] == sc['src'] and len(got) < len(cells):
+                        got += U[k][2]; k += 1
+                    return k if got == cells else None
+                k0 = None
+                while j < len(U):
+                    k0 = try_match(j)
+                    if k0 is not None:
+                        break
+                    if not flush_one():
+                        break
+                if k0 is None:
+                    problems.append('scope-not-found-in-links')
+                    continue
+                j = k0
+            else:
+                if not flush_explicit(expected):
+                    problems.append('scope-not-found-in-links')
+                    continue
+                j += len(expected)
+            seen.update(cells)
+            calls += ['bopen %d' % sc['src']] + body + ['bclose']
+        flush_explicit(None)
+        for s0 in empty_scopes:
+            if s0 not in slack_srcs:
+                calls += ['bopen %d' % s0, 'bclose']
+        return calls, problems
+
     def ancestors(self):
         """root source cells reaching each cell (by flat cell id), following entries in order"""
         anc = {}
@@ -281,7 +448,8 @@ class Graph:
 
 
 # ------------------------------------------------------------------ one case
-FILE_VARIANTS = ['full', 'full', 'absent', 'colonly', 'rowonly', 'short', 'crlf', 'shortcrlf', 'full', 'full', 'absent', 'short', 'crlf', 'nonewline']
+FILE_VARIANTS = ['full', 'full', 'absent', 'colonly', 'rowonly', 'short', 'crlf', 'shortcrlf', 'full', 'full', 'absent', 'short', 'crlf', 'nonewline',
+                 'mixed-crlf-then-lf', 'mixed-lf-then-crlf', 'mixed-random']
 
 
 def make_files(rng, m, stub, variant):
@@ -292,8 +460,18 @@ def make_files(rng, m, stub, variant):
     if variant.startswith('short'):
         col_names = col_names[:rng.below(len(col_names) + 1)]
         row_names = row_names[:rng.below(len(row_names) + 1)]
-    col = ''.join(n + eol for n in col_names).encode('latin-1')
-    row = ''.join(n + eol for n in row_names).encode('latin-1')
+    def join(names):
+        if variant == 'mixed-crlf-then-lf':       # Windows lines, last line ends in a bare LF
+            eols = ['\r\n'] * (len(names) - 1) + ['\n']
+        elif variant == 'mixed-lf-then-crlf':
+            eols = ['\n'] * (len(names) - 1) + ['\r\n']
+        elif variant == 'mixed-random':
+            eols = [rng.choice(['\n', '\r\n']) for _ in names]
+        else:
+            eols = [eol] * len(names)
+        return ''.join(n + e for n, e in zip(names, eols)).encode('latin-1')
+    col = join(col_names)
+    row = join(row_names)
     if variant == 'nonewline' and row:
         row = row[:-1]                     # last line of .row not terminated: ReadError "missing newline"
     if variant == 'absent':
@@ -336,6 +514,9 @@ def gen_case(ck, rng, idx, workdir, size):
     if conic:
         g.family = 'conic'
         m = g.conic_model()
+    elif idx % 10 == 7:
+        g.family = 'norows'
+        m = g.model(norows=True)
     else:
         m = g.model()
     m.write(stub, names=False)
@@ -411,7 +592,7 @@ def exec_case(ck, exe, drv, st, case):
     linkf = stub + '.links'
     if os.path.exists(linkf):
         os.remove(linkf)
-    r = recsolver.run(exe, stub, options=opts, accept=accept, graph=(exp is not None), timeout=60, env={'RECSOLVER_LINKS': linkf}, quadobj=qenv)
+    r = recsolver.run(exe, stub, options=opts, accept=accept, graph=(exp is not None), timeout=60, env={'RECSOLVER_LINKS': linkf, 'RECSOLVER_SCOPES': stub + '.scopes'}, quadobj=qenv)
     log = r['log']
     if nonl:
         # a names file whose last line is not terminated: diagnosed error, no model may be delivered
@@ -461,6 +642,10 @@ def exec_case(ck, exe, drv, st, case):
     st.inc('sources:' + ('suffix-free' if innocent else 'adversarial'))
     cls = 'innocent-sources' if innocent else 'adversarial-sources'
     # ---------------- (a) oracle on the delivered names
+    if vnames is None and src_kind == 'item_name':
+        # names were not requested; BasicProblem invents them lazily only when the graph export prints a variable
+        st.inc('class:item-names-not-generated')
+        return out
     if vnames is None:
         out.append(('no-names-delivered', 'names requested (mode %d, files %s) but AddVariables got no names' % (mode, variant), replay, True))
         return out
@@ -572,7 +757,18 @@ def exec_case(ck, exe, drv, st, case):
     for o in ops:
         st.inc('linkop:' + o.split()[0])
     root_cells = sorted(root_name)
-    api, api_unknown = G.api_calls(root_cells)
+    try:
+        events = [json.loads(l) for l in open(stub + '.scopes') if l.strip()]
+    except Exception:
+        events = None
+    if events is None:
+        api, api_problems = G.api_calls(root_cells)[0], ['no-scope-events']
+    else:
+        api, api_problems = G.api_calls_from_events(root_cells, events)
+    api_unknown = len(api_problems)
+    for pr in api_problems:
+        st.inc('api:problem:' + pr)
+    st.inc('api:scope-events', len(events or []))
     lines += ops + api + ['bend', 'run']
     res = drv.many(lines)
     bad = [(l, a) for l, a in zip(lines, res) if a == 'bad-op' or (a != 'ok' and not a.startswith('run ') and not a.startswith('ok='))]
@@ -596,8 +792,8 @@ def exec_case(ck, exe, drv, st, case):
         # the real registration sequence is not a sequence of constructor-API calls (or yields other operations):
         # the by-construction theorems (C19_*_built) do not cover this run
         out.append(('registration-outside-constructor-api',
-                    'the real link registration cannot be replayed through the constructor API: ok=%s closed=%s opsequal=%s unknown-link-kinds=%d' % (
-                        binfo.get('ok'), binfo.get('closed'), binfo.get('opsequal'), api_unknown), dict(replay, api_calls=api[:60]), True))
+                    'the real link registration cannot be replayed through the constructor API: ok=%s closed=%s opsequal=%s problems=%d' % (
+                        binfo.get('ok'), binfo.get('closed'), binfo.get('opsequal'), api_unknown), dict(replay, api_calls=api[:60], problems=api_problems[:5]), True))
     q = ['var %d' % G.cell('dest_vars()', i) for i in range(len(vnames))]
     q += ['var %d' % G.cell('dest_objs()', i) for i in range(len(objs))]
     conkeys = sorted(G.con_final)
@@ -633,7 +829,9 @@ def exec_case(ck, exe, drv, st, case):
             'leaves': leaves, 'suffixfree': sfv == '1' and sfc == '1'}
     # by construction (C19_*_built theorems): only SuffixFree and NoClash remain as hypotheses when the run is a built graph
     # whose delivered items are exactly leaves
-    hyps_built = {'built': built, 'delivered-are-leaves': not not_leaf, 'suffixfree': hyps['suffixfree'], 'noclash': hyps['plainsafe']}
+    hyps_built = {'built': built, 'roots-named': all(srcs_all), 'delivered-are-leaves': not not_leaf, 'suffixfree': hyps['suffixfree'], 'noclash': hyps['plainsafe']}
+    for k_, v_ in hyps_built.items():
+        st.inc('built-hyp:%s=%d' % (k_, v_))
     st.inc('built-theorem-applies=%d' % all(hyps_built.values()))
     if built and not not_leaf and not all(hyps[k] for k in ('wellfed', 'sib', 'leaves')):
         out.append(('model:built-theorem-contradicted', 'a built graph with leaf deliveries violates a structural hypothesis that C19_built_* prove: %r' % hyps, replay, False))
@@ -848,12 +1046,15 @@ def stage_links(ck, drv, st, rng, n, cov=False):
 # ------------------------------------------------------------------ NameProvider stage
 def nameprovider_cases(rng, n):
     cases = [b'x\ny\nz\n', b'x\r\ny\r\n', b'\ny\n', b'x\n\nz\n', b'x\ny', b'', None, b'\r\n', b'a\rb\n', b'q\na\rb\n',
-             b'\r\r\n', b'abc\r\n\r\nd\n', b'\n', b'\n\n', b'a\n\r\n', b'x[1]\nx[2]\n', b'\rx\n', b'a\r\r\nb\n']
+             b'\r\r\n', b'abc\r\n\r\nd\n', b'\n', b'\n\n', b'a\n\r\n', b'x[1]\nx[2]\n', b'\rx\n', b'a\r\r\nb\n',
+             b'x1\r\nx11\n', b'x\r\ny\r\nz\n', b'x\ny\r\n', b'ab\r\ncd\nef\r\ngh\n']
     alpha = [b'a', b'b', b'x', b'_', b'[', b']', b'1', b'2', b'\r', b'\n', b'\n', b'\r\n', b' ']
     for _ in range(n):
         k = rng.below(4)
         if k == 0:     # well-formed LF
             cases.append(b''.join(bytes('n%d' % rng.below(100), 'ascii') + b'\n' for _ in range(rng.rint(1, 6))))
+        elif k == 1 and rng.chance(1, 2):   # well-formed, mixed line ends (some CRLF, some LF)
+            cases.append(b''.join(bytes('m%d' % rng.below(100), 'ascii') + rng.choice([b'\n', b'\r\n']) for _ in range(rng.rint(2, 6))))
         elif k == 1:   # well-formed CRLF
             cases.append(b''.join(bytes('v[%d]' % rng.below(100), 'ascii') + b'\r\n' for _ in range(rng.rint(1, 6))))
         else:          # arbitrary bytes from a small alphabet
@@ -887,7 +1088,7 @@ def stage_nameprovider(ck, drv, st, rng, workdir, n, cov=False):
                              {'file_hex': c.hex(), 'replay': 'build harness/h_names.cc (see checks/c19.py stage_nameprovider), feed the hex line on stdin'}, found_input=True)
         elif a != 'error' and c:
             # oracle: well-formed files give back exactly their lines
-            names = [unhx(h) for h in a.split()[2:]]
+            names = [unhx(h) if re.fullmatch(r'-|([0-9a-f]{2})+', h) else '?' + h for h in a.split()[2:]]
             wf = file_lines(c)
             if b'\r' not in c.replace(b'\r\n', b'') and c.endswith(b'\n') and all(wf):
                 st.inc('np:wellformed')
